@@ -60,6 +60,16 @@ def aftercache(ctx: Any) -> List[Ob]:
     mut_nodes = [n for n in cfg.nodes if any(c is x for x in an['add'] + an['remove'] for c in n.calls())]
     late = [m for m in mut_nodes for c in comp_nodes if cfg.can_reach(c, m)]
     obs.append(ob(R, f, 'async_updates_complete(...)', 'no cache add/remove can follow the completion callback', not late, str([m.text() for m in late])))
+    # the cache the events are measured against: for every combination of what a datagram produced, new records are added first
+    # and withdrawn ones removed last (a record withdrawn AND announced in one datagram ends up as the event stream says), an
+    # already cached record is refreshed in place -- the post-loop effect table and the refresh obligations of C06
+    from .c06 import order as _order, sighting_obligations
+
+    for o in _order.fn(ctx):
+        if o.construct.startswith('collections non-empty'):
+            o.rule = R
+            obs.append(o)
+    obs.extend(sighting_obligations(ctx, R))
     return obs
 
 
